@@ -365,7 +365,7 @@ def c_handle_failure(it, fv, args, kwargs, node):
     trace(it, "_handle_failure", kwargs["classification"], kwargs["attempt"], kwargs["cause"], kwargs["exc"], kwargs["result"])
     site = f"{fk_of(it)}/call:_handle_failure"
     for n, prop, f in hf_requires(it, st, a, g):
-        p.oblige(f"{site}/requires/{n}", f, prop=prop)
+        p.oblige(f"{site}/requires/{n}", f, prop=None)
     pre = sv.View(it, st)
     gp = g.copy()
     outcome = p.choose(3, "_handle_failure")  # 0 normal, 1 strategy raised, 2 hook raised a non-Exception
@@ -439,23 +439,23 @@ def t_handle_failure(it, cause_index=0):
         base = K_HF
         if r[0] == "exc":
             e = r[1]
-            it.path.oblige(f"{base}/raises/only-strategy-or-hook-baseexception", e.tag in ("strategy", "hook"), prop="C11",
+            it.path.oblige(f"{base}/raises/only-strategy-or-hook-baseexception", e.tag in ("strategy", "hook"), prop=None,
                            detail=f"{e.tag} {e!r}")
             for n, prop, f in hf_relation(it, w, pre, post, a, None, gp, g, start):
-                it.path.oblige(f"{base}/ensures/{n}", f, prop=prop)
-            it.path.oblige(f"{base}/ensures/state-wf", sv.wf_state(it, st), prop="C01")
+                it.path.oblige(f"{base}/ensures/{n}", f, prop=None)
+            it.path.oblige(f"{base}/ensures/state-wf", sv.wf_state(it, st), prop=None)
             it.path.cover(f"{base}/raises[{e.tag}]")
             return
         dec = r[1]
         act = dec.fields["action"]
         is_retry = z3.BoolVal(act == "retry")
-        it.path.oblige(f"{base}/ensures/action-literal", act in ("retry", "raise"), prop="C03")
+        it.path.oblige(f"{base}/ensures/action-literal", act in ("retry", "raise"), prop=None)
         ctx = dec.fields["context"]
         res = {"is_retry": is_retry, "sleep": to_sfloat(dec.fields["sleep_s"]),
                "ctx_ident": ctx.ident if ctx is not None else z3.IntVal(-1)}
         for n, prop, f in hf_relation(it, w, pre, post, a, res, gp, g, start):
-            it.path.oblige(f"{base}/ensures/{n}", f, prop=prop)
-        it.path.oblige(f"{base}/ensures/state-wf", sv.wf_state(it, st), prop="C01")
+            it.path.oblige(f"{base}/ensures/{n}", f, prop=None)
+        it.path.oblige(f"{base}/ensures/state-wf", sv.wf_state(it, st), prop=None)
         if act == "retry":
             it.path.oblige(f"{base}/ensures/retry/context-fields", z3.And(
                 term(ctx.fields["attempt"]) == a["attempt"], ctx.fields["classification"].ident == a["cls_ident"]), prop="C05")
@@ -466,7 +466,7 @@ def t_handle_failure(it, cause_index=0):
             if k not in GHOST_MODIFIED_BY_HF:
                 same = g.v[k].eq(gp.v[k]) if isinstance(g.v[k], z3.ExprRef) else g.v[k] == gp.v[k]
                 if not same:
-                    it.path.oblige(f"{base}/frame/ghost/{k}", g.v[k] == gp.v[k], prop="C03")
+                    it.path.oblige(f"{base}/frame/ghost/{k}", g.v[k] == gp.v[k], prop=None)
         it.path.cover(f"{base}/{act}")
         if act == "raise":
             nm = it.enum_concrete_name(it.force(st.fields["last_stop_reason"]))
@@ -506,36 +506,36 @@ def t_emit(it):
         l_none = T(it.is_none(st.fields["on_log"]))
         nm = sum(1 for c in calls if c[0] == "on_metric")
         nl = sum(1 for c in calls if c[0] == "on_log")
-        p.oblige(f"{base}/C15/state-untouched", not writes and bool(z3.is_true(z3.simplify(sv.same_view(pre, sv.View(it, st))))), prop="C15")
+        p.oblige(f"{base}/C15/state-untouched", not writes and bool(z3.is_true(z3.simplify(sv.same_view(pre, sv.View(it, st))))), prop=None)
         if r[0] == "exc":
             e = r[1]
-            p.oblige(f"{base}/C15/only-hook-exceptions-escape", e.tag in ("on_metric", "on_log"), prop="C15")
-            p.oblige(f"{base}/C15/ordinary-exceptions-are-confined", z3.Not(it.lattice.isinstance_cond(e.cls_t, Exception)), prop="C15")
-            p.oblige(f"{base}/C13/cancellation-from-hook-escapes-unchanged", True, prop="C13")
+            p.oblige(f"{base}/C15/only-hook-exceptions-escape", e.tag in ("on_metric", "on_log"), prop=None)
+            p.oblige(f"{base}/C15/ordinary-exceptions-are-confined", z3.Not(it.lattice.isinstance_cond(e.cls_t, Exception)), prop=None)
+            p.oblige(f"{base}/C13/cancellation-from-hook-escapes-unchanged", True, prop=None)
             p.cover(f"{base}/raises")
             return
-        p.oblige(f"{base}/C15/on_metric-called-once-iff-configured", z3.If(m_none, nm == 0, nm == 1), prop="C15")
-        p.oblige(f"{base}/C15/on_log-called-once-iff-configured", z3.If(l_none, nl == 0, nl == 1), prop="C15")
-        p.oblige(f"{base}/C14/metric-before-log", [c[0] for c in calls] in ([], ["on_metric"], ["on_log"], ["on_metric", "on_log"]), prop="C14")
+        p.oblige(f"{base}/C15/on_metric-called-once-iff-configured", z3.If(m_none, nm == 0, nm == 1), prop=None)
+        p.oblige(f"{base}/C15/on_log-called-once-iff-configured", z3.If(l_none, nl == 0, nl == 1), prop=None)
+        p.oblige(f"{base}/C14/metric-before-log", [c[0] for c in calls] in ([], ["on_metric"], ["on_log"], ["on_metric", "on_log"]), prop=None)
         tags_seen = None
         for tag, args in calls:
             if tag == "on_metric":
                 ev, at, sl, tags = args
                 tags_seen = tags
-                p.oblige(f"{base}/C14/on_metric-args", z3.And(sterm(ev) == event.t, term(at) == attempt.t, rterm(sl) == sleep_s.t), prop="C14")
+                p.oblige(f"{base}/C14/on_metric-args", z3.And(sterm(ev) == event.t, term(at) == attempt.t, rterm(sl) == sleep_s.t), prop=None)
                 exp_keys = set()
                 check_tags(it, p, base, tags, klass, exc, reason, cause, st.fields["operation"])
             else:
                 ev, fields = args
-                p.oblige(f"{base}/C14/on_log-event", sterm(ev) == event.t, prop="C14")
+                p.oblige(f"{base}/C14/on_log-event", sterm(ev) == event.t, prop=None)
                 p.oblige(f"{base}/C14/on_log-fields-attempt-sleep",
                          z3.And(term(fields.get("attempt")) == attempt.t, rterm(fields.get("sleep_s")) == sleep_s.t)
-                         if "attempt" in fields and "sleep_s" in fields else False, prop="C14")
+                         if "attempt" in fields and "sleep_s" in fields else False, prop=None)
                 rest = {k: v for k, v in fields.items() if k not in ("attempt", "sleep_s", "retry_after_s")}
                 check_tags(it, p, base + "/on_log", rest, klass, exc, reason, cause, st.fields["operation"])
                 if tags_seen is not None:
                     p.oblige(f"{base}/C14/log-and-metric-same-tags", set(rest) == set(tags_seen) and all(
-                        it.eq(rest[k], tags_seen[k]) is True or rest[k] is tags_seen[k] for k in rest), prop="C14")
+                        it.eq(rest[k], tags_seen[k]) is True or rest[k] is tags_seen[k] for k in rest), prop=None)
         p.cover(f"{base}/normal")
         if any(True for c in calls):
             p.cover(f"{base}/hook-called")
@@ -553,7 +553,7 @@ def check_tags(it, p, base, tags, klass, exc, reason, cause, operation):
     def need(key, cond):
         c = z3.simplify(cond)
         p.oblige(f"{base}/C14/tag/{key}-present-iff-given", (key in tags) == bool(z3.is_true(c)) if (z3.is_true(c) or z3.is_false(c))
-                 else False, prop="C14", detail=str(c))
+                 else False, prop=None, detail=str(c))
 
     # the path has already decided which optional arguments are None (emit tests each with `is not None`)
     def decided(v):
@@ -571,17 +571,17 @@ def check_tags(it, p, base, tags, klass, exc, reason, cause, operation):
     need("cause", decided(cause))
     if "class" in tags:
         kv = it.force(klass)
-        p.oblige(f"{base}/C14/tag/class-is-member-name", sterm(it.force(tags["class"])) == sterm(it.getattr_value(kv, "name")), prop="C14")
+        p.oblige(f"{base}/C14/tag/class-is-member-name", sterm(it.force(tags["class"])) == sterm(it.getattr_value(kv, "name")), prop=None)
     if "stop_reason" in tags:
         rv = it.force(reason)
-        p.oblige(f"{base}/C14/tag/stop_reason-is-value", sterm(it.force(tags["stop_reason"])) == sterm(it.getattr_value(rv, "value")), prop="C14")
+        p.oblige(f"{base}/C14/tag/stop_reason-is-value", sterm(it.force(tags["stop_reason"])) == sterm(it.getattr_value(rv, "value")), prop=None)
     if "cause" in tags:
-        p.oblige(f"{base}/C14/tag/cause", sterm(it.force(tags["cause"])) == sterm(it.force(cause)), prop="C14")
+        p.oblige(f"{base}/C14/tag/cause", sterm(it.force(tags["cause"])) == sterm(it.force(cause)), prop=None)
     # operation tag iff operation is truthy
     op_truth = it.truth(operation)
     k = p.known.get(z3.simplify(T(op_truth)).get_id()) if not isinstance(op_truth, bool) else op_truth
     if k is not None:
-        p.oblige(f"{base}/C14/tag/operation-iff-truthy", ("operation" in tags) == bool(k), prop="C14")
+        p.oblige(f"{base}/C14/tag/operation-iff-truthy", ("operation" in tags) == bool(k), prop=None)
 
 
 def t_check_abort(it):
@@ -633,12 +633,12 @@ ASSUME = ["emit/elapsed/Budget.consume are used through their contracts inside _
           "Budget.consume in C10"]
 
 TASKS = [
-    Task("state._handle_failure[exception]", lambda it: t_handle_failure(it, 0), ["C01", "C02", "C03", "C04", "C05", "C11", "C14", "C16"],
+    Task("state._handle_failure[exception]", lambda it: t_handle_failure(it, 0), ["C01", "C02", "C03", "C04", "C05", "C10", "C11", "C12", "C13", "C14", "C15", "C16"],
          [K_HF, SKEY + ".record_failure", "redress.policy.base:_BaseRetryPolicy._select_strategy",
           "redress.policy.state:_build_backoff_context"]),
-    Task("state._handle_failure[result]", lambda it: t_handle_failure(it, 1), ["C01", "C02", "C03", "C04", "C05", "C11", "C14", "C16"],
+    Task("state._handle_failure[result]", lambda it: t_handle_failure(it, 1), ["C01", "C02", "C03", "C04", "C05", "C10", "C11", "C12", "C13", "C14", "C15", "C16"],
          [K_HF, SKEY + ".record_failure"]),
-    Task("state.emit", t_emit, ["C14", "C15", "C13"], [K_EMIT]),
+    Task("state.emit", t_emit, ["C01", "C02", "C03", "C04", "C05", "C10", "C11", "C12", "C13", "C14", "C15", "C16"], [K_EMIT]),
     Task("state.check_abort", t_check_abort, ["C13", "C14"], [SKEY + ".check_abort"]),
 ]
 for _t in TASKS:
@@ -651,3 +651,171 @@ for _t in TASKS:
         _t.weight = 5
         _t.split_depth = 6
         _t.split_chunks = 6
+
+
+# ---------------------------------------------------------------------------------------------
+#  constructors, timeline collector, call-graph audit
+# ---------------------------------------------------------------------------------------------
+def t_base_init(it):
+    """_BaseRetryPolicy.__init__ establishes what RetryWorld assumes about a policy object (deadline = timedelta(seconds=deadline_s), ...)"""
+    stdlib.install_clock(it)
+    stdlib.install_timedelta(it)
+    key = "redress.policy.base:_BaseRetryPolicy.__init__"
+    it.contracts["redress.strategies:_normalize_strategy"] = lambda it_, fv, a, k, n: a[0]
+
+    def h(it):
+        from pyvc.values import ClassV
+        p = it.path
+        ec = it.tree.cls("redress.errors:ErrorClass")
+        kw = {
+            "classifier": EnvFn("classifier"), "result_classifier": fopt("rc", EnvFn("result_classifier")),
+            "strategy": fopt("strategy", EnvFn("strategy")),
+            "strategies": fopt("strategies", EnumMap(ec, {k: fopt(f"s_{k}", EnvFn("strategy")) for k in CLASSES[-2:]})),
+            "sleep": fopt("sleep", EnvFn("sleep_fn")), "before_sleep": fopt("bs", EnvFn("before_sleep")),
+            "sleeper": fopt("sleeper", EnvFn("sleeper")), "budget": fopt("budget", Obj(it.tree.cls("redress.budget:Budget"), {})),
+            "attempt_timeout_s": fopt("ato", freal("ato")), "deadline_s": freal("deadline_s"), "max_attempts": fint("max_attempts"),
+            "max_unknown_attempts": fopt("mua", fint("mua")),
+            "per_class_max_attempts": fopt("pcm", EnumMap(ec, {k: fopt(f"l_{k}", fint(f"l_{k}")) for k in CLASSES[:2]})),
+        }
+        r = call_catch(it, ClassV(it.tree.cls("redress.policy.base:_BaseRetryPolicy")), [], kw)
+        none_strat = z3.And(kw["strategy"].none, kw["strategies"].none)
+        bad_to = z3.And(z3.Not(kw["attempt_timeout_s"].none), kw["attempt_timeout_s"].val.t <= 0)
+        if r[0] == "exc":
+            p.oblige(f"{key}/raises/ValueError-only-for-missing-strategy-or-bad-timeout",
+                     z3.And(it.lattice.isinstance_cond(r[1].cls_t, ValueError), z3.Or(none_strat, bad_to)), prop=None)
+            p.cover(f"{key}/raises")
+            return
+        o = r[1].fields
+        p.oblige(f"{key}/ensures/valid", z3.And(z3.Not(none_strat), z3.Not(bad_to)), prop=None)
+        dl = o["deadline"]
+        p.oblige(f"{key}/ensures/deadline-is-rounded-deadline_s",
+                 z3.And(dl.s - kw["deadline_s"].t <= EPS / 2, kw["deadline_s"].t - dl.s <= EPS / 2), prop=None)
+        for f, a in (("classifier", "classifier"), ("result_classifier", "result_classifier"), ("sleep", "sleep"),
+                     ("before_sleep", "before_sleep"), ("sleeper", "sleeper"), ("budget", "budget"),
+                     ("attempt_timeout_s", "attempt_timeout_s"), ("max_attempts", "max_attempts"),
+                     ("max_unknown_attempts", "max_unknown_attempts")):
+            p.oblige(f"{key}/ensures/stores/{f}", o[f] is kw[a], prop=None)
+        p.oblige(f"{key}/ensures/default-strategy", T(it.is_(o["_default_strategy"], kw["strategy"])) if o["_default_strategy"] is not None
+                 else kw["strategy"].none, prop=None)
+        # per-class tables are copied entry by entry
+        for mapname, src in (("_strategies", kw["strategies"]), ("per_class_max_attempts", kw["per_class_max_attempts"])):
+            got = o[mapname]
+            for k in CLASSES:
+                sv_ = src.val.slots.get(k)
+                present_src = z3.And(z3.Not(src.none), z3.Not(sv_.none)) if sv_ is not None else z3.BoolVal(False)
+                gv = got.slots.get(k) if isinstance(got, EnumMap) else None
+                if isinstance(gv, SOpt):
+                    present_got, gval = z3.Not(gv.none), gv.val
+                else:
+                    present_got, gval = z3.BoolVal(gv is not None), gv
+                p.oblige(f"{key}/ensures/{mapname}/{k}", present_got == present_src, prop=None)
+                if gval is not None and sv_ is not None:
+                    same = T(it.is_(gval, sv_.val)) if isinstance(gval, EnvFn) else T(it.eq(gval, sv_.val))
+                    p.oblige(f"{key}/ensures/{mapname}/{k}/value", z3.Implies(present_got, same), prop=None)
+        p.cover(f"{key}/normal")
+
+    return h
+
+
+def t_timeline(it):
+    """C14: the timeline collector records every event (same attempt / event / sleep_s, class, stop reason and cause recovered from the
+    tags) *before* forwarding the identical arguments to on_metric; an Exception from on_metric leaves the recorded event in place."""
+    stdlib.install_clock(it)
+    key = "redress.policy.runner.timeline:_resolve_timeline"
+
+    def on_metric(it_, fn, args, kwargs, node):
+        it_.path.ghost["metric_args"] = args
+        it_.path.ghost["timeline_len_at_metric"] = len(it_.path.ghost["tl"].fields["events"])
+        if it_.path.choose(2, "on_metric") == 1:
+            raise PyRaise(it_.fresh_exc("on_metric", origin="on_metric"))
+        return None
+
+    it.env_models["on_metric"] = on_metric
+
+    def h(it):
+        p = it.path
+        ec = it.tree.cls("redress.errors:ErrorClass")
+        sr = it.tree.cls("redress.errors:StopReason")
+        om = fopt("on_metric", EnvFn("on_metric"))
+        capture = p.choose(3, "capture")  # None/False, True, a RetryTimeline instance
+        tlc = it.tree.cls("redress.policy.types:RetryTimeline")
+        given = Obj(tlc, {"events": []})
+        cap = [None, True, given][capture]
+        r = it.call_value(FuncV(it.tree.func(key)), [cap, om], {})
+        tl, hook = r
+        if capture == 0:
+            p.oblige(f"{key}/ensures/no-capture=>no-timeline-and-metric-hook-unchanged", tl is None and hook is om, prop="C14")
+            p.cover(f"{key}/no-capture")
+            return
+        p.oblige(f"{key}/ensures/timeline-object", isinstance(tl, Obj) and tl.cls.name == "RetryTimeline" and (capture != 2 or tl is given), prop="C14")
+        p.ghost["tl"] = tl
+        klass = fopt("klass", it.fresh_enum(ec, "klass"))
+        reason = fopt("reason", it.fresh_enum(sr, "reason"))
+        cause = fopt("cause", fstr("cause"))
+        tags = {}
+        if not p.branch(klass.none):
+            tags["class"] = it.getattr_value(klass.val, "name")
+        if not p.branch(reason.none):
+            tags["stop_reason"] = it.getattr_value(reason.val, "value")
+        if not p.branch(cause.none):
+            p.assume(z3.Or(cause.val.t == z3.StringVal("exception"), cause.val.t == z3.StringVal("result")))
+            tags["cause"] = cause.val
+        event, attempt, sleep_s = fstr("event"), fint("attempt"), freal("sleep_s")
+        rr = call_catch(it, hook, [event, attempt, sleep_s, tags])
+        evs = tl.fields["events"]
+        p.oblige(f"{key}/hook/C14/one-timeline-event-per-emitted-event", len(evs) == 1, prop="C14")
+        if len(evs) == 1:
+            e = evs[0].fields
+            p.oblige(f"{key}/hook/C14/timeline-event-mirrors-the-emitted-event",
+                     z3.And(term(e["attempt"]) == attempt.t, sterm(e["event"]) == event.t, rterm(e["sleep_s"]) == sleep_s.t), prop="C14")
+            for fld, opt in (("error_class", klass), ("stop_reason", reason)):
+                n, v = ops.opt_parts(e[fld])
+                p.oblige(f"{key}/hook/C14/timeline-{fld}", z3.And(n == opt.none, z3.Implies(z3.Not(opt.none), v.t == opt.val.t) if v is not None else opt.none), prop="C14")
+            n, v = ops.opt_parts(e["cause"])
+            p.oblige(f"{key}/hook/C14/timeline-cause", z3.And(n == cause.none, z3.Implies(z3.Not(cause.none), sterm(v) == cause.val.t) if v is not None else cause.none), prop="C14")
+        ma = p.ghost.get("metric_args")
+        p.oblige(f"{key}/hook/C14/on_metric-gets-the-same-event-after-the-timeline",
+                 (ma is not None and ma[0] is event and ma[1] is attempt and ma[2] is sleep_s and ma[3] is tags
+                  and p.ghost.get("timeline_len_at_metric") == 1) if z3.is_false(z3.simplify(om.none)) or p.known.get(om.none.get_id()) is False
+                 else ma is None, prop="C14")
+        if rr[0] == "exc":
+            p.oblige(f"{key}/hook/C15/only-on_metric-errors-escape-the-wrapper(confined-by-emit)", rr[1].tag == "on_metric", prop="C15")
+        p.cover(f"{key}/capture")
+
+    return h
+
+
+def t_audit_no_breaker_in_runner(it):
+    """C09: failed attempts inside a call are not reported to the breaker - the retry layer never touches a breaker at all (AST audit)."""
+    import ast as _ast
+
+    def h(it):
+        bad = []
+        mods = [m for n, m in it.tree.modules.items() if n.startswith("redress.policy.runner") or n in (
+            "redress.policy.state", "redress.policy.retry_helpers", "redress.policy.retry_sync", "redress.policy.retry_async", "redress.policy.base")]
+        for m in mods:
+            for node in _ast.walk(m.tree):
+                if isinstance(node, _ast.Attribute) and node.attr in ("circuit_breaker", "breaker", "record_cancel", "allow"):
+                    bad.append((m.name, node.lineno, node.attr))
+                if isinstance(node, _ast.Attribute) and node.attr in ("record_success", "record_failure"):
+                    # _RetryState.record_failure/record_success and the adaptive-strategy hooks are not the breaker's
+                    owner = _ast.unparse(node.value)
+                    if owner not in ("self", "state", "strategy") and not owner.endswith("strategy"):
+                        bad.append((m.name, node.lineno, _ast.unparse(node)))
+                if isinstance(node, (_ast.Import, _ast.ImportFrom)):
+                    names = [a.name for a in node.names]
+                    if any("circuit" in n.lower() for n in names) or (isinstance(node, _ast.ImportFrom) and node.module and "circuit" in node.module):
+                        bad.append((m.name, node.lineno, "import circuit"))
+        it.path.oblige("C09/audit/retry-layer-never-touches-a-breaker", not bad, prop="C09", detail=bad[:10])
+        it.path.cover("C09/audit")
+
+    return h
+
+
+TASKS += [
+    Task("base._BaseRetryPolicy.__init__", t_base_init, ["C01", "C02", "C03", "C05"], ["redress.policy.base:_BaseRetryPolicy.__init__"]),
+    Task("runner.timeline", t_timeline, ["C14", "C15"], ["redress.policy.runner.timeline:_resolve_timeline",
+                                                         "redress.policy.runner.timeline:_resolve_timeline.<locals>.hook",
+                                                         "redress.policy.runner.timeline:_TimelineCollector.record"]),
+    Task("audit.no-breaker-in-retry-layer", t_audit_no_breaker_in_runner, ["C09"], []),
+]
